@@ -241,11 +241,7 @@ class ManagementEnforcer(InternalEnforcer):
             rules.append(list(params))
 
         if self.auto_build_role_links and rule_added:
-            self.model.build_incremental_role_links(self.rm_map[ptype], PolicyOp.Policy_add, "g", ptype, rules)
-            if ptype in self.cond_rm_map:
-                self.model.build_incremental_conditional_role_links(
-                    self.cond_rm_map[ptype], PolicyOp.Policy_add, "g", ptype, rules
-                )
+            self._build_incremental_role_links(PolicyOp.Policy_add, ptype, rules)
         return rule_added
 
     def add_named_grouping_policies(self, ptype, rules):
@@ -255,7 +251,7 @@ class ManagementEnforcer(InternalEnforcer):
         Otherwise the function returns true for the corresponding policy rule by adding the new rule."""
         rules_added = self._add_policies("g", ptype, rules)
         if self.auto_build_role_links and rules_added:
-            self.model.build_incremental_role_links(self.rm_map[ptype], PolicyOp.Policy_add, "g", ptype, rules)
+            self._build_incremental_role_links(PolicyOp.Policy_add, ptype, rules)
 
         return rules_added
 
@@ -284,7 +280,7 @@ class ManagementEnforcer(InternalEnforcer):
             rules.append(list(params))
 
         if self.auto_build_role_links and rule_removed:
-            self.model.build_incremental_role_links(self.rm_map[ptype], PolicyOp.Policy_remove, "g", ptype, rules)
+            self._build_incremental_role_links(PolicyOp.Policy_remove, ptype, rules)
         return rule_removed
 
     def remove_named_grouping_policies(self, ptype, rules):
@@ -292,7 +288,7 @@ class ManagementEnforcer(InternalEnforcer):
         rules_removed = self._remove_policies("g", ptype, rules)
 
         if self.auto_build_role_links and rules_removed:
-            self.model.build_incremental_role_links(self.rm_map[ptype], PolicyOp.Policy_remove, "g", ptype, rules)
+            self._build_incremental_role_links(PolicyOp.Policy_remove, ptype, rules)
 
         return rules_removed
 
@@ -301,9 +297,7 @@ class ManagementEnforcer(InternalEnforcer):
         rule_removed = self._remove_filtered_policy_returns_effects("g", ptype, field_index, *field_values)
 
         if self.auto_build_role_links and rule_removed:
-            self.model.build_incremental_role_links(
-                self.rm_map[ptype], PolicyOp.Policy_remove, "g", ptype, rule_removed
-            )
+            self._build_incremental_role_links(PolicyOp.Policy_remove, ptype, rule_removed)
         return rule_removed
 
     def add_function(self, name, func):
